@@ -9,6 +9,7 @@
 #include "diagnostics/d_stacktrace.h"
 
 #include <optional>
+#include <algorithm>
 
 #ifdef DF__SQF_RUNTIME__ASSEMBLY_DEBUG_ON_EXECUTE
 #include <iostream>
@@ -724,17 +725,25 @@ sqf::runtime::runtime::result sqf::runtime::runtime::execute(sqf::runtime::runti
         eval_context->push_frame(f);
         auto old_active = context_active_as_shared();
         m_context_active = eval_context;
+        bool finished = true;
+        if (m_state != state::running)
+        { // no run is active: the maximum runtime applies to this evaluation, not to whenever the last run started
+            m_run_timestamp = std::chrono::system_clock::now();
+            m_is_exit_requested = false;
+        }
         try
         {
             while (!eval_context->empty())
             {
                 state oldstate = m_state;
-                if (m_state == runtime::state::empty)
-                {
-                    m_state = runtime::state::running;
-                }
-                execute_do(*this, 1);
+                m_state = runtime::state::running;
+                auto res = execute_do(*this, 1);
                 m_state = oldstate;
+                if (res == result::ok && (m_is_exit_requested || eval_context->suspended()))
+                { // nothing more will get executed (maximum runtime reached, exit requested, suspended): give up instead of spinning
+                    finished = false;
+                    break;
+                }
             }
         }
         catch (const std::exception& ex)
@@ -742,7 +751,9 @@ sqf::runtime::runtime::result sqf::runtime::runtime::execute(sqf::runtime::runti
             m_evaluate_halt = false;
         }
         m_context_active = old_active;
-        if (m_runtime_error)
+        // the expression is no script of the scheduler
+        m_contexts.erase(std::remove(m_contexts.begin(), m_contexts.end(), eval_context), m_contexts.end());
+        if (m_runtime_error || !finished)
         {
             m_evaluate_halt = false;
             m_runtime_error = false;
